@@ -40,19 +40,23 @@ def run(ctx):
     ctx.component('K-GRAPH', graphs)
     cases = []
     trip = []
+    d2v_shape = {}
     for k in range(ctx.budget(150, 5000)):
         sub = rng.fork('e%d' % k)
         variant = (False, sub.chance(0.5), sub.chance(0.3))
         line, m = gen.gen_e2e(sub, 3 * k, variant=variant, maxit_max=30, r_max=2, prior='zero')
         recs2, nflip = flip_some(sub, m['recs'])
         N, K = m['N'], m['K']
+        # the in-membership argument of an undirected call: empty, N x K, or ANY other shape (a matrix left over from a call on another network)
+        vshape = (N, K) if k % 3 != 1 else sub.choice([s_ for s_ in [(2, 5), (N + 1, K), (N, K + 1), (1, 1), (3, 3), (K, N), (N * K, 1)] if s_ != (N, K)])
         def mk(cid, recs, v0):
             return gen.e2e_case(cid, False, m['assort'], m['from_init'], m['ltype'], m['wtype'], m['r'], m['maxit'], m['nconv'], m['seed'],
                                 [s for s, _, _ in recs], [t for _, t, _ in recs], [w for _, _, ws in recs for w in ws], m['aff'], N, K, m['u0'],
-                                (N if v0 else 0), (K if v0 else 0), v0, [], [])
-        sentinel = [sub.choice([-7.5, 1e300, 3.25, float('nan')]) for _ in range(N * K)]
+                                (vshape[0] if v0 else 0), (vshape[1] if v0 else 0), v0, [], [])
+        sentinel = [sub.choice([-7.5, 1e300, 3.25, float('nan')]) for _ in range(vshape[0] * vshape[1])]
         cases += [mk(3 * k, m['recs'], []), mk(3 * k + 1, recs2, []), mk(3 * k + 2, m['recs'], sentinel)]
         trip.append((3 * k, m, nflip, sentinel))
+        d2v_shape[3 * k] = [str(vshape[0]), str(vshape[1])]
     res = ctx.component('K-E2E(triples, implementation only)', cases, model=False)
     n_eval = 0
     keys = set()
@@ -68,10 +72,12 @@ def run(ctx):
                 ctx.violation('reversal', 'reversing %d record(s) of an undirected edge list (first appearance unchanged) changes the results' % nflip,
                               {'case': cases[c], 'reversed_case': cases[c + 1]})
             d0, d2 = oracles.trace_dict(t0), oracles.trace_dict(t2)
-            if [d0[x] for x in ('status', 'labels', 'u', 'aff', 'rep')] != [d2[x] for x in ('status', 'labels', 'u', 'aff', 'rep')]:
+            if [d0.get(x) for x in ('status', 'labels', 'u', 'aff', 'rep')] != [d2.get(x) for x in ('status', 'labels', 'u', 'aff', 'rep')]:
                 ctx.violation('v-read', 'the in-membership argument influences an undirected run', {'case': cases[c + 2]})
+            if 'v' not in d2:
+                continue
             want_v = [vf.bits_to_float(h) for h in d2['v'][0][3:]]
-            same = len(want_v) == len(sentinel) and all((a == b) or (a != a and b != b) for a, b in zip(want_v, sentinel))
+            same = len(want_v) == len(sentinel) and all((a == b) or (a != a and b != b) for a, b in zip(want_v, sentinel)) and (not sentinel or d2['v'][0][:2] == d2v_shape.get(c, d2['v'][0][:2]))
             if not same:
                 ctx.violation('v-written', 'the in-membership argument was modified by an undirected run', {'case': cases[c + 2]})
             # symmetry of the affinity from the random start
